@@ -184,6 +184,7 @@ func extractC14(c *ctxT) {
 
 	// ---- handler order -------------------------------------------------------------------------------------
 	var order []string
+	var recChecks [][2]string // (predicate called, which address)
 	if fd := c.findFunc(c14Keeper, "Keeper", "MigrateAccount"); fd != nil && fd.Body != nil {
 		for _, st := range fd.Body.List {
 			src := c.src(st)
@@ -194,12 +195,22 @@ func extractC14(c *ctxT) {
 					cond = c.src(s.Init) + ";" + cond
 				}
 				returnsErr := strings.Contains(c.src(s.Body), "return nil,")
-				switch {
-				case strings.Contains(cond, "HasMigrateRecord(ctx, fromAddress)") && returnsErr:
-					order = append(order, "check-record-from")
-				case strings.Contains(cond, "HasMigrateRecord(ctx, toAddress") && returnsErr:
-					order = append(order, "check-record-to")
+				// `if k.<Pred>(ctx, fromAddress|toAddress…) { return nil, … "has been migrated" … }`
+				if ce, ok := s.Cond.(*ast.CallExpr); ok && s.Init == nil && returnsErr && len(ce.Args) == 2 &&
+					strings.Contains(c.src(s.Body), "has been migrated") {
+					if se, ok := ce.Fun.(*ast.SelectorExpr); ok {
+						arg := c.src(ce.Args[1])
+						switch {
+						case strings.HasPrefix(arg, "fromAddress"):
+							order = append(order, "check-record-from")
+							recChecks = append(recChecks, [2]string{se.Sel.Name, "from"})
+						case strings.HasPrefix(arg, "toAddress"):
+							order = append(order, "check-record-to")
+							recChecks = append(recChecks, [2]string{se.Sel.Name, "to"})
+						}
+					}
 				}
+				_ = cond
 			case *ast.AssignStmt:
 				if strings.Contains(src, "checkMigrateFrom(ctx, fromAddress)") {
 					order = append(order, "check-from-account")
@@ -226,6 +237,109 @@ func extractC14(c *ctxT) {
 	sb.WriteString("/-- recognised statements of `Keeper.MigrateAccount`, in source order -/\n")
 	sb.WriteString("def handlerOrder : List String := " + q(order) + "\n\n")
 	c.facts["C14.handlerOrder"] = order
+
+	// ---- migration records: which predicate guards which address, which key each predicate reads, which keys are written
+	pair := func(xs [][2]string) string {
+		var o []string
+		for _, x := range xs {
+			o = append(o, "("+leanStr(x[0])+", "+leanStr(x[1])+")")
+		}
+		return leanList(o)
+	}
+	var preds [][2]string // (predicate, key constructor its store.Has reads)
+	for _, fd := range c.funcDecls(c14Keeper) {
+		if recvName(fd) != "Keeper" || fd.Body == nil || !strings.HasPrefix(fd.Name.Name, "Has") {
+			continue
+		}
+		ast.Inspect(fd.Body, func(n ast.Node) bool {
+			ce, ok := n.(*ast.CallExpr)
+			if !ok || len(ce.Args) != 1 {
+				return true
+			}
+			if se, ok := ce.Fun.(*ast.SelectorExpr); ok && se.Sel.Name == "Has" {
+				if kc, ok := ce.Args[0].(*ast.CallExpr); ok {
+					if ks, ok := kc.Fun.(*ast.SelectorExpr); ok {
+						preds = append(preds, [2]string{fd.Name.Name, ks.Sel.Name})
+					}
+				}
+			}
+			return true
+		})
+	}
+	sort.Slice(preds, func(i, j int) bool { return preds[i][0] < preds[j][0] })
+	var recWrites [][2]string // (key constructor, argument) of every store.Set in SetMigrateRecord
+	if fd := c.findFunc(c14Keeper, "Keeper", "SetMigrateRecord"); fd != nil && fd.Body != nil {
+		ast.Inspect(fd.Body, func(n ast.Node) bool {
+			ce, ok := n.(*ast.CallExpr)
+			if !ok || len(ce.Args) != 2 {
+				return true
+			}
+			if se, ok := ce.Fun.(*ast.SelectorExpr); ok && se.Sel.Name == "Set" {
+				if kc, ok := ce.Args[0].(*ast.CallExpr); ok && len(kc.Args) == 1 {
+					if ks, ok := kc.Fun.(*ast.SelectorExpr); ok {
+						arg := c.src(kc.Args[0])
+						who := "?" + arg
+						switch {
+						case strings.HasPrefix(arg, "from"):
+							who = "from"
+						case strings.HasPrefix(arg, "to"):
+							who = "to"
+						}
+						recWrites = append(recWrites, [2]string{ks.Sel.Name, who})
+					}
+				}
+			}
+			return true
+		})
+	}
+	sb.WriteString("/-- the already-migrated guards of `Keeper.MigrateAccount`: (predicate called, address it is applied to), in source order -/\n")
+	sb.WriteString("def recordChecks : List (String × String) := " + pair(recChecks) + "\n")
+	sb.WriteString("/-- every `Has…` method of the migrate keeper with the key constructor its `store.Has` reads -/\n")
+	sb.WriteString("def recordPredicates : List (String × String) := " + pair(preds) + "\n")
+	sb.WriteString("/-- every `store.Set` of `Keeper.SetMigrateRecord`: (key constructor, address it is keyed by) -/\n")
+	sb.WriteString("def recordWrites : List (String × String) := " + pair(recWrites) + "\n\n")
+	c.facts["C14.recordChecks"] = recChecks
+	c.facts["C14.recordPredicates"] = preds
+	c.facts["C14.recordWrites"] = recWrites
+
+	// ---- bank handler: which keeper call yields the amount that is sent, and the SendCoins arguments
+	bankCall, bankSend := "?", "?"
+	if fd := c.findFunc(c14Keeper, "BankMigrate", "Execute"); fd != nil && fd.Body != nil {
+		amountVar := ""
+		ast.Inspect(fd.Body, func(n ast.Node) bool {
+			switch x := n.(type) {
+			case *ast.AssignStmt:
+				if len(x.Lhs) == 1 && len(x.Rhs) == 1 {
+					if ce, ok := x.Rhs[0].(*ast.CallExpr); ok {
+						if se, ok := ce.Fun.(*ast.SelectorExpr); ok && strings.HasSuffix(c.src(se.X), "bankKeeper") {
+							if id, ok := x.Lhs[0].(*ast.Ident); ok {
+								amountVar = id.Name
+								var as []string
+								for _, a := range ce.Args[1:] {
+									as = append(as, c.src(a))
+								}
+								bankCall = se.Sel.Name + "(" + strings.Join(as, ",") + ")"
+							}
+						}
+					}
+				}
+			case *ast.CallExpr:
+				if se, ok := x.Fun.(*ast.SelectorExpr); ok && se.Sel.Name == "SendCoins" && len(x.Args) == 4 {
+					amt := c.src(x.Args[3])
+					if amt == amountVar {
+						amt = "amount"
+					}
+					bankSend = c.src(x.Args[1]) + "," + c.src(x.Args[2]) + "," + amt
+				}
+			}
+			return true
+		})
+	}
+	sb.WriteString("/-- the bank keeper call whose result `BankMigrate.Execute` sends, and the (sender, receiver, amount) of its `SendCoins` -/\n")
+	sb.WriteString("def bankAmountCall : String := " + leanStr(bankCall) + "\n")
+	sb.WriteString("def bankSendArgs : String := " + leanStr(bankSend) + "\n\n")
+	c.facts["C14.bankAmountCall"] = bankCall
+	c.facts["C14.bankSendArgs"] = bankSend
 
 	// ---- signature -----------------------------------------------------------------------------------------
 	var fields []string
